@@ -135,9 +135,7 @@ impl Vm {
 
     // `{k0: v0, …}`: BuildHashMap n
     //@fn file=yarel/src/vm.rs path=Vm::build_hash_map ret=r
-    //@  rewrite R1 R24
-    //@  subst "self.active_fiber().stack[begin + 2 * i]" => "self.stack_at(begin + 2 * i)"
-    //@  subst "self.active_fiber().stack[begin + 2 * i + 1]" => "self.stack_at(begin + 2 * i + 1)"
+    //@  rewrite R1 R24 R25
     //@  subst "map.borrow_mut()" => "self.map_mut(root_as_gc(&map))"
     //@  requires num_elements * 2 <= old(self).stack.len(), old(self).stack.len() < 0x1000_0000
     //@  ensures @unhashable_key_is_a_value_error (exists|i: int| 0 <= i < num_elements && !(#[trigger] old(self).stack[old(self).stack.len() - 2 * num_elements + 2 * i]).hashable()) ==> (r matches Err(e) && e.kind is ValueError)
